@@ -139,7 +139,7 @@ def boundary_cases():
 
 
 def generate(rng, tier):
-    n = 40000 if tier == 'thorough' else 1500
+    n = 40000 if tier == 'thorough' else 1200
     cases = boundary_cases()
     for i in range(n):
         cases.append(gen_case(rng, malformed=(i % 8 == 5)))
